@@ -1,5 +1,5 @@
 CONSTANTS NDev = 2 NPaths = 3 MaxCycles = 2 MaxAppends = 2 PacketSizes = {1, 2, 3} NScripts = 5
-  MaxFaultAt = 8 FIXED = 1 MaxFd = 5 Ghost = TRUE
+  MaxFaultAt = 8 FIXED = 1 MaxFd = 5 Ghost = TRUE Export = FALSE
 SPECIFICATION Spec
 VIEW View
 INVARIANTS NoErr TypeOK OwnsItsFile RunningFile
